@@ -617,7 +617,10 @@ class Exec:
         args = n.get("a", [])
         if isinstance(obj, Obj) and CONTAINER_RE.match(ccls):
             if name in ARRAY_ACC and not args:
-                return Arr(obj.path + "." + name)
+                # the scalar (pod) view of a blocked container is another index space than its native (block) view:
+                # pod index = native index * block size + component
+                pod = "Perspective::pod" in (n.get("cfull") or "")
+                return Arr(obj.path + "." + name + ("@pod" if pod else ""))
             if name in SCALAR_ACC and not args:
                 return isym(obj.path + "." + name)
             if name == "empty" and not args:
@@ -1587,9 +1590,30 @@ def matrix_summary(facts, fn, by_decl):
     RP = p + ".row_ptr"
     for s in ex.stores:
         where = "line %s: %s[%s]" % (s["l"], s["arr"], ", ".join(str(i) for i in s["idx"]))
-        if s["arr"] != p + ".val":
+        if s["arr"] not in (p + ".val", p + ".val@pod"):
             ms.footprint.append("%s: store to '%s' (only the values of the filtered matrix may be written)" % (where, s["arr"]))
             continue
+        if s["arr"].endswith("@pod") and (ms.bh or 1) * (ms.bw or 1) > 1:
+            # scalar view of the values of a blocked matrix: entry (k,l) of block j lives at bh*bw*j + bw*k + l.  The subscript
+            # must be of that form for an integer 0 <= c < bh*bw - a block index used as a scalar offset lacks the factor bh*bw
+            bsz = ms.bh * ms.bw
+            if len(s["idx"]) != 1:
+                ms.unknown.append("%s: scalar view of the matrix values with %d subscripts" % (where, len(s["idx"])))
+                continue
+            e_ = sp.expand(s["idx"][0])
+            dec = None
+            for c_ in range(bsz):
+                q_ = sp.expand((e_ - c_) / bsz)
+                if all(co.is_Integer for co in q_.as_coefficients_dict().values()):
+                    dec = (q_, c_)
+                    break
+            if dec is None:
+                ms.footprint.append("%s: the scalar (pod) view of the values of a %dx%d-blocked matrix is subscripted with `%s`, which is not %d*(block index)+c: a block "
+                                    "index is used as a scalar offset, so entries of other blocks / rows are written and the constrained row is not" % (where, ms.bh, ms.bw, e_, bsz))
+                continue
+            s = dict(s, arr=p + ".val", idx=(dec[0], sp.Integer(dec[1] // ms.bw), sp.Integer(dec[1] % ms.bw)))
+        elif s["arr"].endswith("@pod"):
+            s = dict(s, arr=p + ".val")
         j = s["idx"][0]
         # position = (loop variable t) + base: effective range [lo+base, hi+base)
         tsyms = [lp_ for lp_ in s["loops"] if lp_["symbolic"] and lp_["sym"] in j.free_symbols]
@@ -1638,7 +1662,7 @@ def matrix_summary(facts, fn, by_decl):
         sized = [a for a, _ in ex.asserts if re.search(r"this\.\w+\.size", str(a))]
         if sized and not any(a == want for a in sized):
             ms.footprint.append("row indices come from %s but the method asserts %s (expected %s.size()==%s.rows()): the rows written are not the rows the method believes to constrain" % (ms.sv, [str(a) for a in sized], ms.sv, p))
-    ms.reads_val = reads_array(ex.stores, p + ".val")
+    ms.reads_val = reads_array(ex.stores, p + ".val") or reads_array(ex.stores, p + ".val@pod")
     return ms
 
 
@@ -1835,6 +1859,8 @@ def slot_problems(ev, vecparam, ex):
         if not recognised:
             inc.append("argument %s for slot '%s' is not an accessor of the vector or of a member of the filter" % (val, pn))
             continue
+        if isinstance(val, Arr) and val.name.endswith("@pod"):
+            val = Arr(val.name[:-4], val.off)        # kernels take the scalar view of (blocked) vectors
         if owner == "vec":
             if not (isinstance(val, Arr) and val.name == "%s.%s" % (vecparam, acc)):
                 probs.append("slot '%s' receives %s instead of %s.%s() of the vector being filtered" % (pn, val, vecparam, acc))
@@ -2068,6 +2094,37 @@ def map_problems(fn, by_decl):
     if stmts is None:
         return viol, ["%s: body is not a block" % fn.full], 0
     if b == "FEAT::LAFEM::FilterSequence":
+        this_alias = set()       # reference locals bound to *this (`const BaseClass& sequence = *this;`)
+        visitor_call = None
+        if len(stmts) == 1 and stmts[0].get("k") == "MCall" and (stmts[0].get("obj") or {}).get("k") == "This" and stmts[0].get("ccls") == fn.cls \
+           and len(stmts[0].get("a", [])) == 1:
+            # visitor form: the traversal lives in one private helper `_apply(Func_&& func)` that calls func(<element>.second) for
+            # every element; the method hands it a lambda `[&](const Filter_& f) { f.filter_X(vector); }`
+            lam = stmts[0]["a"][0]
+            while lam.get("k") in ("Cast", "Construct", "TempObj") and (lam.get("e") is not None or len(lam.get("a", [])) == 1):
+                lam = lam["e"] if lam.get("e") is not None else lam["a"][0]
+            g = by_decl.get(stmts[0].get("cdecl"))
+            lf = by_decl.get(lam.get("op_decl")) if lam.get("k") == "Lambda" else None
+            if g is None or lf is None or g.body is None or lf.body is None or len(g.params) != 1 or len(lf.params) != 1:
+                return viol, ["%s: body is a call of %s, which is not a traversal helper taking a lambda" % (fn.full, stmts[0].get("n"))], 0
+            gst = list(g.body.get("s", []))
+            while gst and gst[0].get("k") == "Decl" and all(v.get("ref") and (v.get("init") or {}).get("k") == "Un" and v["init"].get("op") == "*"
+                                                            and (v["init"].get("e") or {}).get("k") == "This" for v in gst[0].get("vars", [])):
+                this_alias |= {v["d"] for v in gst[0]["vars"]}
+                gst = gst[1:]
+            lst = [x for x in lf.body.get("s", [])]
+            if len(gst) != 1 or gst[0].get("k") not in ("For", "ForRange") or len(lst) != 1 or lst[0].get("k") != "MCall" \
+               or (lst[0].get("obj") or {}).get("d") != lf.params[0].get("d"):
+                return viol, ["%s: traversal helper %s / its lambda are not `loop { func(element.second); }` and `[&](const Filter_& f) { f.filter_X(v); }`" % (fn.full, g.name)], 0
+            hl = gst[0]
+            hb = hl["body"]
+            if hb.get("k") == "Block" and len(hb.get("s", [])) == 1:
+                hb = hb["s"][0]
+            if not (hb.get("k") == "OpCall" and hb.get("op") == "()" and len(hb.get("a", [])) == 2 and (hb["a"][0] or {}).get("k") == "Ref"
+                    and hb["a"][0].get("d") == g.params[0].get("d")):
+                return viol, ["%s: the loop of %s does not call its functor parameter with the current element (%s)" % (fn.full, g.name, render(hb)[:60])], 0
+            visitor_call = {"k": "MCall", "n": lst[0].get("n"), "obj": hb["a"][1], "a": lst[0].get("a", []), "l": lst[0].get("l")}
+            stmts = [dict(hl, body=visitor_call)]
         if len(stmts) != 1 or stmts[0].get("k") not in ("For", "ForRange"):
             return viol, ["%s: body is not a single loop over the sub-filters" % fn.full], 0
         lp = stmts[0]
@@ -2137,7 +2194,10 @@ def map_problems(fn, by_decl):
             elem_d = var.get("d")
         else:
             rng = lp.get("range") or {}
-            if not (rng.get("k") == "Un" and rng.get("op") == "*" and (rng.get("e") or {}).get("k") == "This"):
+            while rng.get("k") == "Cast" and rng.get("e") is not None:
+                rng = rng["e"]
+            if not ((rng.get("k") == "Un" and rng.get("op") == "*" and (rng.get("e") or {}).get("k") == "This") or
+                    (rng.get("k") == "Ref" and rng.get("d") in this_alias)):
                 return viol, ["%s: range-for does not run over *this (%s)" % (fn.full, render(rng))], 0
             elem_d = lp["var"].get("d")
         if not (call.get("k") == "MCall" and call.get("n", "").startswith("filter_")):
@@ -2695,6 +2755,19 @@ def members_read_by_filters(facts, cls, by_decl):
                     work.append(g)
             if n.get("k") == "MCall" and (n.get("obj") or {}).get("k") == "This" and n.get("ccls") and n["ccls"] != cls and n["ccls"].startswith("std::"):
                 mem.add("<base>")          # the filter is (derives from) a standard container: its elements are the state
+            # ... also when the object itself is traversed / viewed as its container base: `for(x : *this)`,
+            # `const BaseClass& seq = *this;`, `static_cast<const BaseClass&>(*this)`
+            def deref_this(e):
+                while e is not None and e.get("k") == "Cast":
+                    e = e.get("e")
+                return e is not None and e.get("k") == "Un" and e.get("op") == "*" and (e.get("e") or {}).get("k") == "This"
+            if n.get("k") == "ForRange" and deref_this(n.get("range")):
+                mem.add("<base>")
+            if n.get("k") == "Var" and n.get("init") is not None and deref_this(n["init"]) and n.get("ref") \
+               and (f.type(n.get("t")) or "").replace("const ", "").replace("&", "").strip() not in (cls, base_name(cls).rsplit("::", 1)[-1]):
+                mem.add("<base>")          # bound to a base class view of the object (the type is not the class itself)
+            if n.get("k") == "Cast" and deref_this(n) and re.match(r"^(const )?std::", str(n.get("to") or "")):
+                mem.add("<base>")
     return mem
 
 
